@@ -2,7 +2,10 @@
 //! After EVERY event: both sides equal the map (best-first, no duplicate prices), sequence, mid / volume-weighted mid price, and
 //! `snapshot(depth)` for every depth 0..=len+2 returns the best N levels of each side (the books are asymmetric in general).
 use crate::report;
-use barter_data::{books::{Level, OrderBook}, subscription::book::OrderBookEvent};
+use barter_data::{books::{Level, OrderBook, manager::OrderBookL2Manager, map::{OrderBookMap, OrderBookMapMulti}}, event::MarketEvent, streams::reconnect::Event, subscription::book::OrderBookEvent};
+use barter_instrument::exchange::ExchangeId;
+use futures::StreamExt;
+use std::{cell::RefCell, rc::Rc, sync::Arc};
 use rust_decimal::Decimal;
 use std::collections::{BTreeMap, HashSet};
 
@@ -79,6 +82,47 @@ fn run_seq(events: &[(bool, Vec<(i64, i64)>, Vec<(i64, i64)>)], seen: &mut HashS
             if seen.insert(*label) { report(label, format!("events: {}", trace.join(" ; ")), obs.clone(), exp.clone()); }
         }
         if !fails.is_empty() { return; }
+    }
+}
+
+/// The consumer loop: events for two configured instruments (and one that is not configured), with ARBITRARY sequence numbers (increasing,
+/// repeated, restarting below the book's), interleaved with Reconnecting notices, go through the REAL `OrderBookL2Manager::run`. Before the
+/// manager pulls the next item - i.e. after it has applied the previous one - each managed book must equal its instrument's map, and its
+/// sequence must be that of the last event applied to it (every event is applied: 'after ANY sequence of snapshots and updates').
+type MEv = (usize, bool, u64, Vec<(i64, i64)>, Vec<(i64, i64)>);   // (instrument 0/1 | 2 = not configured | 9 = Reconnecting notice, snapshot?, sequence, bids, asks)
+fn run_manager_seq(events: &[MEv], seen: &mut HashSet<&'static str>) {
+    let keys = [11u32, 22u32];
+    let books = OrderBookMapMulti::new(keys.iter().map(|k| (*k, Arc::new(Default::default()))).collect::<fnv::FnvHashMap<u32, _>>());
+    let models: Rc<RefCell<[Model; 2]>> = Rc::new(RefCell::new([(BTreeMap::new(), BTreeMap::new(), 0), (BTreeMap::new(), BTreeMap::new(), 0)]));
+    let fails: Rc<RefCell<Vec<(usize, Fail)>>> = Rc::new(RefCell::new(vec![]));
+    let settle = { let (books, models, fails) = (books.clone(), models.clone(), fails.clone()); move |upto: usize| {
+        if !fails.borrow().is_empty() { return; }
+        for (j, k) in keys.iter().enumerate() {
+            let book = books.find(k).unwrap().read().clone();
+            for f in check(&book, &models.borrow()[j]) { fails.borrow_mut().push((upto, f)); }
+        }
+    } };
+    let items: Vec<(usize, Event<ExchangeId, MarketEvent<u32, OrderBookEvent>>)> = events.iter().enumerate().map(|(n, (inst, snapshot, seq, bids, asks))| {
+        if *inst == 9 { return (n, Event::Reconnecting(ExchangeId::BinanceSpot)); }
+        let ob = OrderBook::new(*seq, None, levels(bids), levels(asks));
+        let kind = if *snapshot { OrderBookEvent::Snapshot(ob) } else { OrderBookEvent::Update(ob) };
+        let t = chrono::DateTime::<chrono::Utc>::from_timestamp(1_700_000_000 + n as i64, 0).unwrap();
+        (n, Event::Item(MarketEvent { time_exchange: t, time_received: t, exchange: ExchangeId::BinanceSpot, instrument: match inst { 0 => 11u32, 1 => 22, _ => 33 }, kind }))
+    }).collect();
+    let stream = futures::stream::iter(items).map({ let (models, settle, evs) = (models.clone(), settle.clone(), events.to_vec()); move |(n, item)| {
+        settle(n);
+        let (inst, snapshot, seq, bids, asks) = &evs[n];
+        if *inst < 2 { apply_model(&mut models.borrow_mut()[*inst], *snapshot, *seq, bids, asks); }
+        item
+    } });
+    futures::executor::block_on(OrderBookL2Manager { stream: Box::pin(stream), books: books.clone() }.run());
+    settle(events.len());
+    if let Some((upto, (label, obs, exp))) = fails.borrow().first().cloned() {
+        let label: &'static str = match label { "C05.bounded.bids_equal_map" | "C05.bounded.asks_equal_map" | "C05.bounded.sequence_of_last_event" => "C05.bounded.managed_book_equals_map_after_every_event", l => l };
+        if seen.insert(label) {
+            let show = |e: &MEv| if e.0 == 9 { "Reconnecting".to_string() } else { format!("{}(instrument {}, seq={}, bids={:?}, asks={:?})", if e.1 { "Snapshot" } else { "Update" }, ["A", "B", "not-configured"][e.0.min(2)], e.2, e.3, e.4) };
+            report(label, format!("through OrderBookL2Manager::run, two managed books A, B; stream: {}; checked after {} item(s)", events.iter().map(show).collect::<Vec<_>>().join(" ; "), upto), obs, exp);
+        }
     }
 }
 
@@ -162,6 +206,49 @@ pub fn run(seed: u64, thorough: bool) -> u64 {
                 run_seq(&[(true, vec![(999, 1)], vec![(1001 + width as i64, 1)]), (false, l.clone(), vec![]), (false, vec![], l.clone()), (false, l.clone(), l)], &mut seen);
                 n += 1;
             }
+        }
+    }
+    // the consumer loop (OrderBookL2Manager): crafted sequence-number patterns, then seeded random streams
+    {
+        let up = |i: usize, q: u64, b: Vec<(i64, i64)>, a: Vec<(i64, i64)>| -> MEv { (i, false, q, b, a) };
+        let sn = |i: usize, q: u64, b: Vec<(i64, i64)>, a: Vec<(i64, i64)>| -> MEv { (i, true, q, b, a) };
+        let crafted: Vec<Vec<MEv>> = vec![
+            // increasing
+            vec![sn(0, 10, vec![(5, 1)], vec![(6, 1)]), up(0, 11, vec![(4, 2)], vec![]), up(0, 12, vec![(5, 0)], vec![(7, 3)])],
+            // an update whose sequence is LOWER than the book's (numbering restarted without a new snapshot) and one that repeats it
+            vec![sn(0, 100, vec![(5, 1)], vec![(6, 1)]), up(0, 3, vec![(4, 2)], vec![(6, 0)]), up(0, 3, vec![(3, 1)], vec![]), up(0, 4, vec![(5, 0)], vec![(8, 1)])],
+            // two instruments interleaved, a notice and an event for a non-configured instrument in between
+            vec![sn(0, 7, vec![(5, 1)], vec![(6, 1)]), sn(1, 70, vec![(50, 1)], vec![(60, 1)]), (9, false, 0, vec![], vec![]), up(2, 1, vec![(1, 1)], vec![(2, 1)]), up(1, 69, vec![(51, 2)], vec![]), up(0, 8, vec![], vec![(6, 0)]), sn(1, 5, vec![(40, 1)], vec![]), up(1, 6, vec![(41, 1)], vec![(42, 1)])],
+            // updates before any snapshot
+            vec![up(0, 5, vec![(5, 1)], vec![(6, 1)]), up(0, 2, vec![(5, 0), (4, 1)], vec![]), sn(0, 1, vec![(9, 1)], vec![(10, 1)]), up(0, 1, vec![(9, 2)], vec![])],
+        ];
+        for c in &crafted { run_manager_seq(c, &mut seen); n += 1; }
+        let mut rng = Rng(0xA0761D6478BD642F ^ seed.wrapping_mul(0xE7037ED1A0B428DB) | 1);
+        for _ in 0..(if thorough { 30_000 } else { 3_000 }) {
+            let len = 2 + rng.below(8) as usize;
+            let mut evs: Vec<MEv> = vec![];
+            let mut last = [50u64, 50u64, 50u64];
+            for k in 0..len {
+                if rng.below(9) == 0 { evs.push((9, false, 0, vec![], vec![])); continue; }
+                let inst = if rng.below(8) == 0 { 2 } else { rng.below(2) as usize };
+                let snapshot = k < 2 || rng.below(5) == 0;
+                let seq = match rng.below(4) { 0 => last[inst], 1 => last[inst].saturating_sub(1 + rng.below(40)), _ => last[inst] + 1 + rng.below(3) };
+                last[inst] = seq;
+                let mut mk = |rng: &mut Rng, distinct: bool| {
+                    let mut v: Vec<(i64, i64)> = vec![];
+                    for _ in 0..rng.below(4) {
+                        let p = 1 + rng.below(6) as i64;
+                        let a = if distinct { 1 + rng.below(3) as i64 } else { rng.below(3) as i64 };
+                        if distinct && v.iter().any(|(q, _)| *q == p) { continue; }
+                        v.push((p, a));
+                    }
+                    v
+                };
+                let (b, a) = (mk(&mut rng, snapshot), mk(&mut rng, snapshot));
+                evs.push((inst, snapshot, seq, b, a));
+            }
+            run_manager_seq(&evs, &mut seen);
+            n += 1;
         }
     }
     // seeded random longer histories with re-snapshots
